@@ -12,6 +12,16 @@ CLAIMED = {
             "against an independent parse of data/*.dat and of the #defines; the space is finite so nothing is sampled.",
             "trusts glibc strtod/printf, meson build, the harness' own 150-line parser; group line macros are left to C10, Auger to C11",
             "DESIGN.md 2/C01"),
+    "C10": ("exhaustive enumeration Z x group macro; reference average recomputed from member lines selected by name (differential oracle)",
+            "All Z x {KA,KB,LA,LB, 7 doublets, KO, KP} energies and {KA,KB,LA} rates plus all 39 Siegbahn aliases are compared (1e-13) with the "
+            "weighted/plain mean over members chosen by parsing line names; finite space, nothing sampled.",
+            "member single-line values are trusted here (decided by C01), L-beta weights are the library's CS_FluorLine (decided by C09)",
+            "DESIGN.md 2/C10"),
+    "C11": ("exhaustive enumeration Z x shell x Auger macro against a name-derived reference over independently parsed raw tables",
+            "All 9 shells and 996 Auger macros (and out-of-range values) for every Z are compared (1e-10) with 1-omega-sum(CK) and "
+            "raw/(TOTAL - CK-type raw) computed from an own parse of the data files; Coster-Kronig membership comes from the macro names.",
+            "trusts the harness parser and name grammar; tolerance covers the single %.10E print of the derived tables",
+            "DESIGN.md 2/C11"),
 }
 
 NOT_YET = "check not built yet in this round (see DESIGN.md section 2 for its design)"
